@@ -231,9 +231,9 @@ Qed.
 Lemma leaked_range : forall l base e, In e (leaked base l) -> base <= fst e < base + allocs l.
 Proof.
   induction l as [|s r IH]; intros base e H; [destruct H|].
-  destruct s; cbn [leaked] in H; unfold allocs; cbn [filter is_alloc]; fold (allocs r); try (apply IH; assumption).
-  rewrite len_cons. fold (allocs r).
-  destruct (existsb (frees id) r); [apply IH in H; lia|]. destruct H as [<-|H]; [cbn; lia|apply IH in H; lia].
+  destruct s; cbn [leaked] in H; unfold allocs; cbn [filter is_alloc]; fold (allocs r); try (apply IH; assumption);
+    (rewrite len_cons; fold (allocs r);
+     destruct (existsb (frees id) r); [apply IH in H; lia|]; destruct H as [<-|H]; [cbn; lia|apply IH in H; lia]).
 Qed.
 
 Lemma base_mono b0 ts i j : (i < j)%nat -> (j < length ts)%nat ->
@@ -264,14 +264,14 @@ Proof.
 Qed.
 
 (* releasing a block that this test did not allocate (an earlier test's block, or p[id] == NULL) leaves L unchanged *)
-Definition allocates (id : N) (s : stmt) : bool := match s with SAlloc j _ _ => j =? id | _ => false end.
+Definition allocates (id : N) (s : stmt) : bool := match s with SAlloc j _ _ | SRealloc j _ => j =? id | _ => false end.
 Lemma foreign_release_no_offset : forall a b id base, existsb (allocates id) a = false ->
   leaked base (a ++ SFree id :: b) = leaked base (a ++ b).
 Proof.
   induction a as [|s r IH]; intros b id base H; [reflexivity|].
   cbn [existsb] in H. apply orb_false_iff in H. destruct H as [H1 H2].
-  destruct s; cbn [app leaked]; try (apply IH; assumption).
-  cbn [allocates] in H1. rewrite !existsb_app. cbn [existsb frees]. rewrite (N.eqb_sym id), H1, orb_false_l, (IH _ _ _ H2). reflexivity.
+  destruct s; cbn [app leaked]; try (apply IH; assumption);
+    (cbn [allocates] in H1; rewrite !existsb_app; cbn [existsb frees]; rewrite (N.eqb_sym id), H1, orb_false_l, (IH _ _ _ H2); reflexivity).
 Qed.
 
 (* the state before every preTestAction: after k tests and the outside statements that precede test k *)
@@ -334,21 +334,22 @@ Proof. intros HV. apply (run_good s HV). Qed.
 
 (* ------------------------------------------------------------------ the hypotheses are satisfiable: a program with every ingredient *)
 Definition example_s : scenario := mkS
-  [SAlloc 20 5 0; SAlloc 21 5 0]                                         (* before the plugin exists: ordinals 1, 2 *)
+  [SAlloc 20 5 0; SAlloc 21 5 2]                                         (* before the plugin exists: ordinals 1, 2 *)
   [ mkT [] [] [SAlloc 1 4 0] [SAlloc 2 8 1; SFree 1; SFree 20] [] [];    (* block 2 outlives the test: leak failure *)
     mkT [SAlloc 9 1 2] [] [] [SFree 2; SAlloc 3 1 0; SExpect 1] [] [];   (* releases the earlier block, leaks one, declared one: passes *)
     mkT [] [] [SAlloc 4 1 0; SFail; SFree 4] [SAlloc 5 1 0] [SIgnore] []; (* fails in setup: body skipped, no leak failure although 4 stays *)
     mkT [] [] [] [SAlloc 1 2 0; SIgnore] [SExpect 7] [];                 (* address 1 reused; asked to ignore *)
     mkT [] [] [] [SExpect 2; SAlloc 6 0 1] [] [];                        (* one leak, two declared: leak failure *)
     mkT [] [SAlloc 7 1 0] [] [] [] [SFree 7];                            (* a plugin's pre-action allocates, its post-action releases: clean *)
-    mkT [] [] [] [SAlloc 8 1 0] [] [SFail; SFail] ]                      (* the inner plugin reports failures: no leak failure on top *)
+    mkT [] [] [] [SAlloc 8 1 0] [] [SFail; SFail];                       (* the inner plugin reports failures: no leak failure on top *)
+    mkT [] [] [] [SRealloc 9 3; SRealloc 21 6; SRealloc 10 2; SFree 10] [] [] ]   (* an outside block, a pre-plugin block and NULL reallocated *)
   [SFree 9] 0.
 Example example_valid : valid example_s = true.
 Proof. vm_compute. reflexivity. Qed.
 Example example_run :
-  map ti_leak (o_tests (run example_s)) = [1; 0; 0; 0; 1; 0; 0] /\ map ti_fail (o_tests (run example_s)) = [1; 0; 1; 0; 1; 0; 2] /\
-  map ti_entries (o_tests (run example_s)) = [[(4, 8)]; []; []; []; [(9, 0)]; []; []] /\
-  o_empty (run example_s) = false /\ o_total (run example_s) = 5.
+  map ti_leak (o_tests (run example_s)) = [1; 0; 0; 0; 1; 0; 0; 1] /\ map ti_fail (o_tests (run example_s)) = [1; 0; 1; 0; 1; 0; 2; 1] /\
+  map ti_entries (o_tests (run example_s)) = [[(4, 8)]; []; []; []; [(9, 0)]; []; []; [(12, 3); (13, 6)]] /\
+  o_empty (run example_s) = false /\ o_total (run example_s) = 6.
 Proof. vm_compute. repeat split; reflexivity. Qed.
 Example example_before_pre : world_before_pre example_s 1 <> w_start d_init.
 Proof. vm_compute. discriminate. Qed.
